@@ -210,6 +210,7 @@ inductive Pred
   | isEmpty (e : TExp)                 -- len(e) == 0
   | not (p : Pred)
   | and (p q : Pred)
+  | or (p q : Pred)
   | bannerSet                          -- rx != nil            (rx := cfg.CheckBanner)
   | bannerUnset                        -- cfg.CheckBanner == nil
   | bannerNoMatch (e : TExp)           -- rx.FindStringIndex(e) == nil
@@ -226,6 +227,7 @@ def Pred.eval (pe : PEnv) : Pred → Bool
   | .isEmpty e => (e.eval pe).isEmpty
   | .not p => !p.eval pe
   | .and p q => p.eval pe && q.eval pe
+  | .or p q => p.eval pe || q.eval pe
   | .bannerSet => pe.cfg.banner.isSome
   | .bannerUnset => pe.cfg.banner.isNone
   | .bannerNoMatch e => match pe.cfg.banner with
@@ -242,6 +244,7 @@ def Pred.show : Pred → String
   | .isEmpty e => "len(" ++ e.show ++ ") == 0"
   | .not p => "!" ++ p.show
   | .and p q => p.show ++ " && " ++ q.show
+  | .or p q => p.show ++ " || " ++ q.show
   | .bannerSet => "rx != nil"
   | .bannerUnset => "cfg.CheckBanner == nil"
   | .bannerNoMatch e => "rx.FindStringIndex(" ++ e.show ++ ") == nil"
